@@ -1754,6 +1754,15 @@ impl HnswBackend {
                     );
                 }
 
+                // Everything the index would reject about the vector itself (non-finite
+                // lanes, a vector that cannot be normalized) must be refused here, before
+                // the WAL append: a rejection after the append is compensated with a
+                // `Delete` entry, which on the next recovery also erases the previously
+                // acknowledged version of an overwritten document.
+                index
+                    .validate_vector(&embedding)
+                    .context("Insert rejected: embedding is not indexable")?;
+
                 let old_internal_id = store.external_to_internal.get(&doc_id).copied();
                 let old_metadata = old_internal_id.map(|id| store.metadata[id].clone());
                 // Coherence versions only track replacement of the currently
